@@ -25,12 +25,13 @@ from harness.props import ep_util as E
 
 PROP = "C12"
 # the refinement lemmas cycle level -> event level, one file per endpoint kind (import Props.C12)
-REFINE_MODULES = ["LunaVerif.Lemmas.C12SigRefine", "LunaVerif.Lemmas.C12InRefine"]
+REFINE_MODULES = ["LunaVerif.Lemmas.C12SigRefine", "LunaVerif.Lemmas.C12InRefine", "LunaVerif.Lemmas.C12OutRefine"]
 LEAN_MODULES = ["LunaVerif.Props.C12"] + REFINE_MODULES
 DRIVER = E.DRIVER
 REQUIRED_THEOREMS = ["in_step_foreign_is_silent", "out_step_foreign_is_silent", "sig_step_foreign_is_silent",
                      "foreign_transaction_invisible", "mux_passes_selected", "at_most_one_answers",
-                     "sig_cycle_refines_event", "sig_cycle_refines_run", "in_cycle_refines_event", "in_cycle_refines_run"]
+                     "sig_cycle_refines_event", "sig_cycle_refines_run", "in_cycle_refines_event", "in_cycle_refines_run",
+                     "out_cycle_refines_event", "out_cycle_refines_run"]
 RULE = ("dev: adaptive legal host schedules (IN/OUT/PING on 5 endpoints, unowned tokens, other devices, lost "
         "handshakes, retries, wrong PIDs, bad CRCs, control transfers incl. CLEAR_FEATURE(ENDPOINT_HALT)) on a "
         "random endpoint layout, each re-run with the foreign traffic deleted for 3 target endpoints; gate/mux: "
@@ -41,13 +42,21 @@ ASSUMPTIONS = [
     "handshakes exchanged with OTHER DEVICES on a shared bus are outside the quantifier (DESIGN §6 C12 note)",
     "stream (producer/consumer/signal) events happen between transactions (DESIGN appendix D)",
     "at most one endpoint per (number, direction) (EpDev.wellFormed)",
+    "out_cycle_refines_event/_run (C12Out.EvOk / histOk): a data packet follows a token accepted by this device; its clock "
+    "cycles are a transaction of C13's LegalHost acceptor (any byte spacing, any response delay >= 1, one response request "
+    "for a CRC-valid packet, none for a corrupted one); every packet on the bus, also for other endpoints, is no longer "
+    "than this endpoint's max packet size (C13's acceptor; 8-byte SETUP packets: max_packet_size >= 8); the consumer "
+    "reads between transactions and its last read is finalised one cycle later",
 ]
 PARTIAL = ("foreign_transaction_invisible is proved on the event-level model (tied to the real device by event-level "
            "co-simulation and by the differential monitor); the per-cycle lemmas are proved on the cycle-level models "
-           "(tied by lock-step co-simulation); the cycle-level models refine the event-level one for the status endpoint "
-           "(sig_cycle_refines_event / _run, little-endian configuration) and for the stream IN endpoint "
+           "(tied by lock-step co-simulation); the cycle-level models refine the event-level one for every endpoint kind: "
+           "status endpoint (sig_cycle_refines_event / _run, little-endian configuration), stream IN endpoint "
            "(in_cycle_refines_event / _run over C11's InXfer model with both packet memories; flush = discard = 0, producer "
-           "bytes between transactions); no such refinement lemma yet for the stream OUT endpoint")
+           "bytes between transactions) and stream OUT endpoint (out_cycle_refines_event / _run over C13's model and "
+           "acceptor; OUT transactions addressed to another device on a shared bus and packets longer than the endpoint's "
+           "max packet size are outside its hypotheses); the refinement lemmas are per endpoint (slice machine control "
+           "endpoint x endpoint), not yet composed into one cycle-level whole-device statement")
 
 I, O, P, S = U.PID_IN, U.PID_OUT, U.PID_PING, U.PID_SETUP
 
